@@ -15,6 +15,7 @@ REGISTRY = {
     "C04": "objectstore",
     "C06": "objectstore",
     "C07": "objectstore",
+    "C08": "indexdiff",
     "C11": "objectstore",
     "C12": "objectstore",
 }
